@@ -107,9 +107,9 @@ def attribute(mism):
                 roots = sel
                 break
         keep = roots if roots is not None else items
-        # account totals are derived from the per-portfolio figures: consequences when those differ
-        if roots is None and any(not t.startswith("C01:account") for t, _ in items):
-            keep = [(t, d) for t, d in items if not t.startswith("C01:account")]
+        # a wrong quantity (C02) makes the position-level P&L differ as a consequence
+        if roots is None and any(t.startswith("C02:qty") or t.startswith("C02:domain") for t, _ in items):
+            keep = [(t, d) for t, d in items if not t.startswith("C03:")]
         for t, d in keep:
             out.append((step, t, d))
     return out
